@@ -366,6 +366,11 @@ class IH5Record(IH5Group):
         # if something is wrong with the indices, this will throw an exception.
         for path in paths:
             ret.__files__.append(h5py.File(path, "r"))
+            if ret.__files__[-1].mode != "r":
+                # HDF5 shares the handle of a file opened twice by a process, so the
+                # file would stay writable after the other record object commits it
+                msg = "container is currently open for writing by another record object!"
+                raise ValueError(f"{path}: {msg}")
         ret.__files__.sort(key=lambda f: ret._ublock(f).patch_index)
         # ----
         has_patches: bool = len(ret.__files__) > 1
